@@ -8,6 +8,7 @@ import (
 	"fmt"
 	"sort"
 	"strconv"
+	"strings"
 	"time"
 
 	"github.com/Trendyol/go-dcp/helpers"
@@ -270,6 +271,11 @@ func (c *CoreRun) await(st *Step) {
 	}
 	if st.Post != nil && !c.diverged {
 		if up, _ := st.Post["up"].(bool); !up {
+			if str(st.L["a"]) != "Crash" {
+				// the specification predicts a fail-stop: wait for the panic to surface on a driver thread (a panic on a
+				// goroutine of the library ends this process instead)
+				c.r.S.WaitUntil(stepTimeout, func(p map[string]string, d map[string]bool) bool { return c.r.S.AnyDied() })
+			}
 			c.r.S.Settle(2*time.Millisecond, 100*time.Millisecond)
 			return
 		}
@@ -283,11 +289,20 @@ func (c *CoreRun) await(st *Step) {
 		if c.r.S.WaitCond(stepTimeout, func(p map[string]string, d map[string]bool, nev int) bool {
 			return nev >= wantEv && fmt.Sprint(parkedList(p)) == want
 		}) {
-			if stp, _ := st.Post["stopped"].(bool); stp {
-				// the stop channel is closed by a goroutine that parks nowhere afterwards
-				for dl := time.Now().Add(stepTimeout); !c.r.Stopped() && time.Now().Before(dl); {
-					time.Sleep(100 * time.Microsecond)
+			// a thread that parks nowhere after its last event (the end of Open, the close of the stop channel) may
+			// still be a few statements away from the state the specification predicts
+			for dl := time.Now().Add(stepTimeout / 4); time.Now().Before(dl); {
+				pp := c.r.Post()
+				ok := true
+				for _, k := range []string{"open", "active", "rebalances", "stopped", "flag"} {
+					if w, has := st.Post[k]; has && Canon(w) != Canon(pp[k]) {
+						ok = false
+					}
 				}
+				if ok {
+					break
+				}
+				time.Sleep(100 * time.Microsecond)
 			}
 			return
 		}
@@ -355,6 +370,9 @@ func (c *CoreRun) exec(l map[string]any) string {
 		}
 		if a == "SeqNosRet" {
 			c.setHigh()
+		}
+		if part, _ := l["part"].(bool); part && a == "LoadRet" {
+			rel = "partial"
 		}
 		c.r.S.Release(th, rel)
 	case "OpenRet", "ReopenRet":
@@ -445,9 +463,6 @@ func (c *CoreRun) exec(l map[string]any) string {
 		t := str(l["t"])
 		if c.r.S.Parked()[t] != "save.prelock" {
 			return t + " is not at save.prelock"
-		}
-		if c.lockHeld() {
-			return "save lock is held"
 		}
 		c.r.S.Release(t, nil)
 	case "SaveTake":
@@ -548,6 +563,10 @@ func (c *CoreRun) exec(l map[string]any) string {
 		if !known {
 			return "unknown cause"
 		}
+		if cause == "statechanged" {
+			c.fo[vb] += 100 // a fail-over: the next stream of this vBucket is on a new history branch
+			c.w.SetFo(vb, c.fo[vb])
+		}
 		th := "d" + strconv.Itoa(vb+1)
 		r := c.r
 		r.S.Go(th, func() {
@@ -563,11 +582,93 @@ func (c *CoreRun) exec(l map[string]any) string {
 	case "Crash":
 		c.r.S.Emit(Ev{"ev": "Crash"})
 		c.kill()
+	case "SaveAcquire":
+		// (only reached in a diverged run: nothing to do, the thread proceeds by itself)
+	case "StartWind":
+	case "Quiesce":
+		if c.diverged {
+			// the run no longer follows the specification: let whatever the real code has pending complete (every
+			// gate released with a friendly answer, armed timers fired, one flush save), so that the end-of-run
+			// obligations are judged on what the code really does
+			c.drain()
+		}
+		c.r.S.Emit(Ev{"ev": "Quiesced"})
 	case "Nop":
 	default:
 		return "unknown label " + a
 	}
 	return ""
+}
+
+func (c *CoreRun) settle() { c.r.S.Settle(2*time.Millisecond, 150*time.Millisecond) }
+
+func (c *CoreRun) releaseAll() bool {
+	any := false
+	pk := c.r.S.Parked()
+	names := make([]string, 0, len(pk))
+	for th := range pk {
+		names = append(names, th)
+	}
+	sort.Strings(names)
+	for _, th := range names {
+		switch pk[th] {
+		case "OpenStream":
+			parts := strings.Split(th, ":")
+			vb, _ := strconv.Atoi(strings.TrimSuffix(parts[len(parts)-1], "#2"))
+			if vb >= 1 && vb <= len(c.fo) {
+				q := 0
+				if st := c.r.Stream(); st != nil {
+					off, _, _ := st.GetOffsets()
+					if o, ok := off.Load(uint16(vb - 1)); ok {
+						q = int(o.SeqNo)
+					}
+				}
+				c.wire[vb-1] = wireFrom(c.slog[vb-1], q)
+				c.r.S.Release(th, riga.OpenResult{Uuid: c.fo[vb-1]})
+			}
+		case "md.Save":
+			for _, vb := range c.r.Meta.DirtyOf(th) {
+				c.r.Meta.Write(th, vb)
+			}
+			c.r.S.Release(th, nil)
+		default:
+			c.r.S.Release(th, nil)
+		}
+		any = true
+		c.settle()
+	}
+	return any
+}
+
+func (c *CoreRun) drain() {
+	for i := 0; i < 40 && c.up; i++ {
+		if c.releaseAll() {
+			continue
+		}
+		fired := false
+		for _, t := range c.r.Timers {
+			if t.Stop() {
+				t.Reset(0)
+				fired = true
+				c.settle()
+			}
+		}
+		c.r.NoteTimer()
+		if !fired {
+			break
+		}
+	}
+	if st := c.r.Stream(); st != nil && c.up && st.IsOpen() && !c.r.S.IsDone("main") {
+		r := c.r
+		r.S.Go("z", func() {
+			r.S.Emit(Ev{"ev": "SaveCall", "t": "z"})
+			st.Save()
+			r.S.Emit(Ev{"ev": "SaveRet", "t": "z"})
+		})
+		c.settle()
+		for i := 0; i < 10 && c.releaseAll(); i++ {
+		}
+	}
 }
 
 func (c *CoreRun) waitDied(th string) (string, bool) {
@@ -584,17 +685,39 @@ func (c *CoreRun) kill() {
 	c.up = false
 }
 
+func autoLabel(l map[string]any) bool { return str(l["a"]) == "SaveAcquire" }
+
 // OnStep, if set, is told when a step begins and when its trace line is complete.
 var OnStep func(begin bool, i int, tl *TraceLine)
 
 // Run executes the schedule and returns the recorded trace.
 func (c *CoreRun) Run() []TraceLine {
-	for i := range c.sch.Steps {
+	for i := 0; i < len(c.sch.Steps); i++ {
 		st := &c.sch.Steps[i]
 		if OnStep != nil {
 			OnStep(true, i+1, nil)
 		}
-		tl := TraceLine{Run: c.sch.ID, I: i + 1, L: st.L}
+		// steps that happen by themselves (a thread blocked on the save lock acquires it the moment the holder
+		// lets go) are part of the step that causes them: executed together, compared with the merged prediction
+		first := i
+		if !c.diverged {
+			for i+1 < len(c.sch.Steps) && autoLabel(c.sch.Steps[i+1].L) {
+				i++
+			}
+		}
+		if i > first {
+			merged := Step{L: st.L, Post: c.sch.Steps[i].Post}
+			for k := first; k <= i; k++ {
+				for _, e := range c.sch.Steps[k].Evs {
+					if m, ok := e.(map[string]any); ok && m["ev"] == "State" && k < i {
+						continue
+					}
+					merged.Evs = append(merged.Evs, e)
+				}
+			}
+			st = &merged
+		}
+		tl := TraceLine{Run: c.sch.ID, I: first + 1, L: st.L}
 		wasUp := c.up
 		var rOld *riga.Rig = c.r
 		reason := c.exec(st.L)
@@ -636,7 +759,10 @@ func (c *CoreRun) Run() []TraceLine {
 		}
 		c.lines = append(c.lines, tl)
 		if OnStep != nil {
-			OnStep(false, i+1, &c.lines[len(c.lines)-1])
+			OnStep(false, first+1, &c.lines[len(c.lines)-1])
+		}
+		for k := first + 1; k <= i; k++ {
+			c.lines = append(c.lines, TraceLine{Run: c.sch.ID, I: k + 1, L: c.sch.Steps[k].L, Post: tl.Post})
 		}
 	}
 	if c.r != nil {
@@ -662,6 +788,21 @@ func DiffStep(st Step, tl TraceLine) string {
 			m[k] = v
 		}
 		got = append(got, Canon(m))
+	}
+	dies := false
+	for _, e := range st.Evs {
+		if m, ok := e.(map[string]any); ok && (m["ev"] == "Died") {
+			dies = true
+		}
+	}
+	if dies {
+		// the process dies in this step: which goroutines got how far before the panic is not determined
+		for _, e := range tl.Evs {
+			if e["ev"] == "Died" {
+				return ""
+			}
+		}
+		return "spec says the process dies in this step"
 	}
 	ws, gs := append([]string{}, want...), append([]string{}, got...)
 	sort.Strings(ws)
